@@ -14,7 +14,8 @@ import zlib
 
 from harness.common import Atom, classify_exception
 
-RULE = ("op sequences (1..25 store/fetch/exists on files and chunks) on a real temp dir under every "
+RULE = ("op sequences (1..25 store/fetch/exists on files and chunks; the MIME class varies per operation on the "
+        "same name) on a real temp dir under every "
         "flat/deep x gzip x compresslevel{0,1,9} config, names from a grammar (clean pool with spelling "
         "variants; dirty stream: '..' in every position, absolute, empty, '.', '.gz' names, prefixes), "
         "contents incl. empty and 70 kB, MIME types incl. the exempt ones; every dataset re-read under "
@@ -264,8 +265,8 @@ def gen_sequence(rng, base_dir, dirty, big_ok):
             name = dirty_name(rng, base_dir) if is_dirty else spell(rng, rng.choice(names))
             canon = "/".join(p for p in name.split("/") if p not in ("", "."))
             mime = mime_of.setdefault(canon, rng.choice(MIMES))
-            if dirty and rng.random() < 0.05:
-                mime = rng.choice(MIMES)
+            if rng.random() < 0.35:
+                mime = rng.choice(MIMES)          # one name under several MIME classes
             k = rng.random()
             if k < 0.45:
                 ops.append(["sf", name, gen_content(rng, big_ok), mime, rng.random() < 0.5])
@@ -277,6 +278,8 @@ def gen_sequence(rng, base_dir, dirty, big_ok):
             key = dirty_key(rng, base_dir) if is_dirty else rng.choice(keys)
             co = rng.choice(coords)
             mime = mime_of.setdefault(("chunk", key), rng.choice(MIMES[:3] + MIMES[4:5]))
+            if rng.random() < 0.35:
+                mime = rng.choice(MIMES)
             if rng.random() < 0.5 and key != "":
                 ops.append(["sc", key, co, gen_content(rng, big_ok), mime, rng.random() < 0.8])
             else:
@@ -375,7 +378,7 @@ def history_guard(flat, ops):
     """True iff the history lies in the region where last_write_wins is
     proved: relative file names, relative non-empty keys, no accepted name
     with a component ending in '.gz', accepted names pairwise prefix-free,
-    the other-layout chunk paths unused, MIME exemption constant per name."""
+    the other-layout chunk paths unused.  The MIME type is free per operation."""
     used = {}
     others = set()
     for op in ops:
@@ -398,14 +401,7 @@ def history_guard(flat, ops):
             mime = op[4] if op[0] == "sc" else None
         if not n or any(c.endswith(".gz") for c in n):
             return False
-        ex = used.get(n)
-        if mime is not None:
-            e = mime in EXEMPT
-            if ex is not None and ex != e:
-                return False
-            used[n] = e
-        else:
-            used.setdefault(n, ex)
+        used[n] = True
     names = list(used)
     for i, x in enumerate(names):
         for y in names[i + 1:]:
@@ -585,7 +581,9 @@ def file_accessor_part(R, nseq):
             for n, v in reversed(j["s_map"]):
                 want[n] = v
             mime_ex = {}
-            for o in ops:
+            for o, so in zip(ops, j["s_outs"]):
+                if str(so[0]) != "ok":
+                    continue                     # a refused / failed store does not change the form
                 if o[0] == "sf" and py_norm(o[1]) is not None:
                     mime_ex["/".join(py_norm(o[1]))] = o[3] in EXEMPT
                 if o[0] == "sc" and isinstance(py_key(o[1]), tuple):
@@ -601,7 +599,8 @@ def file_accessor_part(R, nseq):
                                 case, {"name": rel, "path": path, "found": None if data is None else data[:20]})
                 other = j["base"] + "/" + rel + ("" if zipped else ".gz")
                 if other in j["snap1"]:
-                    R.violation("both plain and .gz exist for a name in a single-config history", case, {"name": rel})
+                    R.violation("both forms (plain and .gz) of a stored name exist: a stale twin is left behind",
+                                case, {"name": rel, "plain_and_gz": [path, other]})
         # 3. oracle: cross-config reading of guarded histories
         for (c2, res) in j["cross"]:
             m_res = rep2[pos][0]
@@ -927,6 +926,27 @@ def witnesses(R):
         ("ShardedFileAccessor.store_file('../new')",
          lambda: ShardedFileAccessor(base).store_file("../new", b"x"), os.path.join(sb, "w", "new")),
     ]
+    # one name under two MIME classes (repaired by _drop_other_form): the latest bytes are read,
+    # only one form exists, and overwrite=False under the other class is refused
+    acc = FileAccessor(base, gzip=True)
+    co = (0, 64, 0, 64, 0, 64)
+    seq = [run_impl(lambda: acc.store_chunk(b"old", "k", co, mime_type="image/jpeg")),
+           run_impl(lambda: acc.store_chunk(b"new", "k", co, mime_type="application/octet-stream")),
+           run_impl(lambda: acc.fetch_chunk("k", co)),
+           run_impl(lambda: acc.store_file("f", b"one", mime_type="application/json")),
+           run_impl(lambda: acc.store_file("f", b"two", mime_type="text/plain", overwrite=False)),
+           run_impl(lambda: acc.fetch_file("f"))]
+    case = {"regression": "one name stored under two MIME classes (gzip=True): store_chunk(b'old', jpeg); "
+                          "store_chunk(b'new', octet-stream); fetch_chunk; store_file('f', b'one', json); "
+                          "store_file('f', b'two', text/plain, overwrite=False); fetch_file('f')"}
+    R.case(case, nontrivial=True)
+    cpath = os.path.join(base, "k", "0-64", "0-64", "0-64")
+    twins = [p for p in (cpath, os.path.join(base, "f")) if os.path.exists(p) and os.path.exists(p + ".gz")]
+    want = [["ok", None], ["ok", None], ["ok", b"new"], ["ok", None], ["AccessErr"], ["ok", b"one"]]
+    if seq != want or twins:
+        R.violation("a name stored under two MIME classes: the latest bytes are not read back / a stale twin of "
+                    "the other form survives / overwrite=False did not refuse", case,
+                    {"impl": _short(seq), "expected": _short(want), "both_forms_exist": twins})
     for what, fn, leftover in checks:
         out = run_impl(fn)
         case = {"regression": what}
